@@ -489,6 +489,157 @@ Section RateLoop.
     rewrite Forall_forall in *. intros r Hin HN. apply (Hit r Hin); [|exact HN].
     destruct (Hfix r Hin) as (Eγ & _). rewrite Eγ. lra.
   Qed.
+  (* ------------------------------------------------------------------ an a-priori lower bound of the step size (backtracking):
+     the loop doubles L only when the quadratic upper bound is violated, which (descent lemma) forces L < Lf; hence
+     L_k <= max(L_init, 2 Lf) and γ_k >= Lγ_factor / max(L_init, 2 Lf) at every record of every run *)
+  Notation Cons_x := (cons_x psi_grad grad_psi P).
+  Notation Cons_step := (cons_step lb ub l1).
+  Notation Cons_hat := (cons_hat psi_yhat).
+  Notation Inv_ := (Inv psi_grad psi_yhat grad_L grad_psi lb ub l1 P x_in).
+  Notation step_ := (fpass_step psi_yhat grad_L lb ub l1 P bt_fuel).
+  Notation pass_ := (fpass psi_grad psi_yhat grad_L grad_psi lb ub l1 stop_req time_up P x_in y_in Σ errz_in bt_fuel).
+  Notation loop_ := (floop psi_grad psi_yhat grad_L grad_psi lb ub l1 stop_req time_up P x_in y_in Σ errz_in bt_fuel).
+  Notation ARGS T := (T psi_grad psi_yhat grad_L grad_psi lb ub l1 stop_req time_up P x_in y_in Σ errz_in bt_fuel) (only parsing).
+  Definition Lcap : R := Rmax Linit (2 * Lf).
+
+  Lemma qub_violated_small (i : it) : fixed = false -> Cons_x i -> Cons_step i -> Cons_hat i -> length (jx i) = n -> 0 < jgam i ->
+    fit_backtrack P i = true -> jL i < Lf.
+  Proof.
+    intros Efx Hx (Hst & Hpp & Hgpd) [c Hc] Ly Hγ Hbt.
+    destruct HP as (Htol & _). destruct Hco as (Hpg & Hpy & _). destruct Hf as (Hglen & _ & _ & Hdesc).
+    unfold cons_x in Hx. rewrite Efx in Hx. destruct Hx as [c0 Hx]. rewrite (Hpg c0 _ Ly) in Hx.
+    assert (Eps : jpsi i = f (jx i)) by (inversion Hx; reflexivity).
+    assert (Eg : jgrad i = gradf (jx i)) by (inversion Hx; reflexivity).
+    rewrite Eg in Hst, Hgpd.
+    pose proof (prox_eval_spec n f gradf lb ub l1 Hok Hglen (jgam i) (jx i) Hγ Ly) as S. cbv zeta in S.
+    unfold prox_eval in S. rewrite Hst in S. cbn [o_xh o_p o_h o_pp o_gp o_psih] in S.
+    destruct S as (Lxh & _ & _ & _ & _ & Epp & Egp & _).
+    pose proof (Hpy c _ Lxh) as Eh. rewrite <- Hc in Eh. cbn [fst] in Eh.
+    pose proof (Hdesc (jxh i) (jx i) Lxh Ly) as Hd. rewrite <- Egp in Hd. fold (dist2 n (jxh i) (jx i)) in Hd. rewrite <- Epp in Hd.
+    assert (Hpp0 : 0 <= vsqnorm (jp i)) by (rewrite Epp; apply dist2_nonneg).
+    unfold fit_backtrack, fit_qub_violated, bt_guard, FistaGen.qub_violated, qub_margin in Hbt.
+    apply andb_prop in Hbt. destruct Hbt as [_ Hq]. rewrite Eh, Eps, Hgpd, Hpp, Htol in Hq. revert Hq. numR. intros Hq.
+    apply Rlt_bool_iff in Hq.
+    set (gp := vdot (jp i) (gradf (jx i))) in *. set (pp := vsqnorm (jp i)) in *. clearbody gp pp.
+    destruct (Rlt_le_dec (jL i) Lf) as [|Hge]; [assumption|exfalso].
+    assert (0 <= (jL i - Lf) * pp) by (apply Rmult_le_pos; lra). lra.
+  Qed.
+
+  Lemma backtrack_Lcap : forall fuel (i : it) c bt ch i' c' bt' ch', fixed = false -> Cons_x i -> Cons_step i -> Cons_hat i ->
+    length (jx i) = n -> 0 < jgam i -> jL i <= Lcap ->
+    fbacktrack psi_yhat lb ub l1 P fuel i c bt ch = Some (i', c', bt', ch') -> jL i' <= Lcap.
+  Proof.
+    induction fuel as [|fuel IH]; intros i c bt ch i' c' bt' ch' Efx Hx Hs Hh Ly Hγ HL; cbn [fbacktrack];
+      destruct (fit_backtrack P i) eqn:Eq; try discriminate.
+    1,3: intros E; inversion E; subst; exact HL.
+    pose proof (qub_violated_small i Efx Hx Hs Hh Ly Hγ Eq) as Hsmall.
+    destruct (ARGS eprox_cons (fhalve_it i)) as [A B]; [exact Hx|].
+    destruct (ARGS epsih_cons c _ A B) as (A' & B' & C').
+    apply IH; try assumption.
+    - unfold fhalve_it, bt_gamma. cbn [feval_psih feval_prox fset_gamma_L jgam]. numR. lra.
+    - rewrite (ARGS jL_after_halve). unfold Lcap. pose proof (Rmax_r Linit (2 * Lf)). lra.
+  Qed.
+
+  Lemma inv_len s : Inv_ s -> length (jx (fs_curr s)) = n /\ length (jxh (fs_curr s)) = n.
+  Proof.
+    intros [_ _ _ _ Hlog Hch Hprev _ Hlk]. pose proof (chain_len _ Hch Hlog) as Hl. rewrite Hprev.
+    destruct (fs_log s) as [|r tl].
+    - destruct Hlk as (_ & _ & X0). rewrite X0. cbn [prev_xh]. split; [exact Hx0|apply xh_init_len].
+    - destruct Hl as (_ & Lxh & Lb). destruct Hlk as (_ & _ & _ & _ & Hna & Hacc). cbn [prev_xh]. split; [|exact Lxh].
+      destruct (fp_noaccel P); [rewrite (Hna eq_refl); exact Lxh|rewrite (Hacc eq_refl); apply map2_length; assumption].
+  Qed.
+
+  Lemma step_Lcap s curr c5 bt : Inv_ s -> jL (fs_curr s) <= Lcap -> step_ s = Some (curr, c5, bt) -> jL curr <= Lcap.
+  Proof.
+    intros HI HL Hst. destruct (inv_len s HI) as [Ly _].
+    destruct HP as (_ & HLg & _ & _).
+    assert (Hγ : 0 < jgam (fs_curr s)) by (apply (ARGS glrel0_pos); [lra|apply L_init_pos|apply HI]).
+    destruct fixed eqn:Efx.
+    - destruct (ARGS step_facts s curr c5 bt HI Hst) as (_ & _ & _ & _ & _ & Hfx & _).
+      rewrite (Hfx Efx). rewrite <- (iv_fix _ _ _ _ _ _ _ _ _ _ HI Efx). exact HL.
+    - revert Hst. unfold fpass_step. cbv zeta. rewrite Efx. cbn [negb orb].
+      destruct (ARGS eprox_cons (fs_curr s) (iv_x _ _ _ _ _ _ _ _ _ _ HI)) as [A1 B1].
+      destruct (ARGS epsih_cons (fs_cnt s) _ A1 B1) as (A2 & B2 & C2).
+      set (i2 := feval_psih psi_yhat (fs_cnt s) (feval_prox lb ub l1 (fs_curr s))) in *.
+      assert (H3 : forall c, jL (feval_gradh grad_L c i2) = jL i2 /\ jx (feval_gradh grad_L c i2) = jx i2) by (intros; split; reflexivity).
+      destruct (fneed P).
+      + destruct (fbacktrack psi_yhat lb ub l1 P bt_fuel _ _ (fs_bt s) false) as [[[[i4 c4] bt4] ch4]|] eqn:Eb; [|discriminate].
+        intros E. inversion E; subst curr c5 bt; clear E.
+        assert (H4 : jL i4 <= Lcap)
+          by (apply (backtrack_Lcap bt_fuel (feval_gradh grad_L (finc_py (fs_cnt s)) i2) _ _ _ _ _ _ _ Efx A2 B2 C2 Ly Hγ HL Eb)).
+        destruct (ch4 && true); exact H4.
+      + destruct (fbacktrack psi_yhat lb ub l1 P bt_fuel _ _ (fs_bt s) false) as [[[[i4 c4] bt4] ch4]|] eqn:Eb; [|discriminate].
+        intros E. inversion E; subst curr c5 bt; clear E.
+        assert (H4 : jL i4 <= Lcap) by (apply (backtrack_Lcap _ _ _ _ _ _ _ _ _ Efx A2 B2 C2 Ly Hγ HL Eb)).
+        destruct (ch4 && false); exact H4.
+  Qed.
+
+  Definition Lb_ok (s : fstate (T:=R)) : Prop :=
+    jL (fs_curr s) <= Lcap /\ Forall (fun r => jL (fr_it r) <= Lcap) (fs_log s).
+
+  Lemma pass_Lb s : Inv_ s -> Lb_ok s ->
+    match pass_ s with
+    | FCont s' => Lb_ok s'
+    | FExit o => Forall (fun r => jL (fr_it r) <= Lcap) (fo_log o)
+    | FFuel => True
+    end.
+  Proof.
+    intros HI [HL Hlog]. unfold fpass. destruct (step_ s) as [[[curr c5] bt]|] eqn:Hst; [|exact I]. cbv zeta.
+    pose proof (step_Lcap s curr c5 bt HI HL Hst) as HLc.
+    match goal with |- context [match ?st with StBusy => _ | _ => _ end] => destruct st end.
+    1: { unfold Lb_ok, fcont. cbv zeta. cbn [fs_curr fs_log]. split; [|constructor; [exact HLc|exact Hlog]].
+         destruct fixed; exact HLc. }
+    all: unfold fexit; cbv zeta; cbn [fo_log]; apply Forall_rev; constructor; [exact HLc|exact Hlog].
+  Qed.
+
+  Lemma reachable_Lb s : Reachable s -> Lb_ok s.
+  Proof.
+    induction 1 as [i0 c0 E0|s s' Hr IH Ep].
+    - unfold Lb_ok, first_state. cbn [fs_curr fs_log fset_gamma_L jL]. split; [|constructor].
+      unfold Lcap, L_init. rewrite E0. cbn [fst]. apply Rmax_l.
+    - pose proof (pass_Lb s (ARGS reachable_inv s Hr) IH) as Hp. rewrite Ep in Hp. exact Hp.
+  Qed.
+
+  Lemma loop_reach : forall fuel s o, Reachable s -> loop_ fuel s = FDone o -> exists s', Reachable s' /\ pass_ s' = FExit o.
+  Proof.
+    induction fuel as [|fuel IH]; intros s o Hr; cbn [floop]; [discriminate|].
+    destruct (pass_ s) as [o'|s'|] eqn:Ep; [|apply IH; eapply reach_step; eassumption|discriminate].
+    intros E. inversion E; subst. exists s. split; assumption.
+  Qed.
+
+  Theorem fistaloop_L_bounded fuel o : run fuel = FDone o ->
+    Forall (fun r => jL (fr_it r) <= Lcap /\ fp_Lgamma P / Lcap <= jgam (fr_it r)) (fo_log o).
+  Proof.
+    intros Hr.
+    destruct (fista_records psi_grad psi_yhat grad_L grad_psi lb ub l1 stop_req time_up P x_in y_in Σ errz_in bt_fuel fuel o Hr) as (Hall & _ & _).
+    assert (Hex : exists s', Reachable s' /\ pass_ s' = FExit o).
+    { revert Hr. unfold fista. destruct (finit_L psi_grad grad_psi P x_in) as [i0 c0] eqn:E0.
+      destruct (negb (nfinite (jL i0))); [discriminate|]. change (@n1 R NumR) with 1.
+      fold (first_state P i0 c0). apply loop_reach. apply reach_init. exact E0. }
+    destruct Hex as (s' & Hr' & Ep).
+    pose proof (pass_Lb s' (ARGS reachable_inv s' Hr') (reachable_Lb s' Hr')) as Hp. rewrite Ep in Hp.
+    destruct HP as (_ & HLg & _ & _). pose proof L_init_pos as HL0.
+    assert (Hcap : 0 < Lcap) by (unfold Lcap; pose proof (Rmax_l Linit (2 * Lf)); lra).
+    rewrite Forall_forall in *. intros r Hin. specialize (Hp r Hin). split; [exact Hp|].
+    destruct (Hall r Hin) as (_ & _ & Hgl & _).
+    pose proof (ARGS glrel0_pos _ ltac:(lra) HL0 Hgl) as Hγ.
+    pose proof (ARGS glrel0_product_factor _ ltac:(lra) Hgl) as Hprod.
+    apply Rmult_le_reg_r with Lcap; [exact Hcap|]. unfold Rdiv. rewrite Rmult_assoc, Rinv_l by lra. rewrite Rmult_1_r, <- Hprod.
+    apply Rmult_le_compat_l; lra.
+  Qed.
+
+  (* iteration count with NO hypothesis on the step sizes: γmin = Lγ_factor / max(L_init, 2 Lf) *)
+  Theorem fistaloop_iterations_apriori fuel o : run fuel = FDone o -> fp_noaccel P = false ->
+    forall (η : R) (N : nat), 0 < η -> sqrt (2 * dist2 n x_in xs / (fp_Lgamma P / Lcap * η)) <= INR N ->
+    Forall (fun r => (N <= fr_k r + 1)%nat -> FF (jxh (fr_it r)) - FF xs <= η) (fo_log o).
+  Proof.
+    intros Hr Hacc η N He Hs. pose proof (fistaloop_L_bounded fuel o Hr) as HLb.
+    destruct HP as (_ & HLg & _ & _). pose proof L_init_pos as HL0.
+    assert (Hcap : 0 < Lcap) by (unfold Lcap; pose proof (Rmax_l Linit (2 * Lf)); lra).
+    assert (Hg : 0 < fp_Lgamma P / Lcap) by (apply Rdiv_lt_0_compat; lra).
+    pose proof (fistaloop_iterations fuel o Hr Hacc (fp_Lgamma P / Lcap) η N Hg He Hs) as Hit.
+    rewrite Forall_forall in *. intros r Hin HN. apply (Hit r Hin); [|exact HN]. apply (HLb r Hin).
+  Qed.
 End RateLoop.
 
 (* ------------------------------------------------------------------ non-vacuity: concrete instances of ALL hypotheses, with completed runs *)
